@@ -11,6 +11,11 @@ import (
 // kf02aWindow: op's primary write has begun before k and no checkpoint covers it yet,
 // so start-up replay re-applies its transaction group (variable records get appended again).
 func (cr *crashRun) kf02aWindow(op, k int) bool {
+	if cr.l2PrimaryWritten && cr.issued(op, k) && !cr.covered(op, k) {
+		// two-level enumeration (C34): the interrupted start-up's own replay had already written
+		// primary data of the transactions it found un-checkpointed; the next start-up replays them again
+		return true
+	}
 	fp, ok := cr.FirstPrim[op]
 	return ok && fp < k && !cr.covered(op, k)
 }
